@@ -277,6 +277,7 @@ var allTypes = []reflect.Type{
 	reflect.TypeFor[*ast.BranchStmt](),
 	reflect.TypeFor[*ast.IncDecStmt](),
 	reflect.TypeFor[*ast.BasicLit](),
+	reflect.TypeFor[*ast.Ellipsis](),
 }
 
 var nodeToASTTypes = map[reflect.Type][]reflect.Type{
@@ -328,6 +329,7 @@ var nodeToASTTypes = map[reflect.Type][]reflect.Type{
 	reflect.TypeFor[BranchStmt]():              {reflect.TypeFor[*ast.BranchStmt]()},
 	reflect.TypeFor[IncDecStmt]():              {reflect.TypeFor[*ast.IncDecStmt]()},
 	reflect.TypeFor[BasicLit]():                {reflect.TypeFor[*ast.BasicLit]()},
+	reflect.TypeFor[Ellipsis]():                {reflect.TypeFor[*ast.Ellipsis]()},
 	reflect.TypeFor[IntegerLiteral]():          {reflect.TypeFor[*ast.BasicLit](), reflect.TypeFor[*ast.UnaryExpr]()},
 	reflect.TypeFor[TrulyConstantExpression](): allTypes, // this is an over-approximation, which is fine
 }
